@@ -557,6 +557,8 @@ class Factoriser:
             self.flat_mul(x[3], out)
         elif x[0] == "cast" and x[1][0] == "bin" and x[1][1] == "Mul":
             self.flat_mul(x[1], out)
+        elif x[0] == "c" and x[1] == 1:
+            pass  # neutral element (e.g. the seed of an iterator product)
         else:
             out.append(x)
 
@@ -1221,21 +1223,26 @@ def bestof_reduction(ctx, path, n, rule, need, ob, key, sty, k5v):
     ok_rows = len(items) == len(table)
     ok_rank = True
     base_env = {"s%d" % i: 100 + i for i in range(n)}
+    bare = bool(items) and items[0][0] == "agg" and items[0][1][:2] == ("adt", FIVE)
     for k_, it in enumerate(items):
-        lv = leaves_of(it, []) if it[0] == "agg" else [it]
-        calls = [x for x in lv if x[0] == "call" and x[1] == "fn:" + k5v]
-        hands = [f for f in (it[2] if it[0] == "agg" else []) if f[0] == "agg" and f[1][:2] == ("adt", FIVE)]
-        if len(calls) != 1 or len(hands) != 1:
-            ok_rank = False
-            continue
-        cand = calls[0][2][0]
-        ok_rank = ok_rank and cand is hands[0]
+        if bare:
+            cand = it
+        else:
+            lv = leaves_of(it, []) if it[0] == "agg" else [it]
+            calls = [x for x in lv if x[0] == "call" and x[1] == "fn:" + k5v]
+            hands = [f for f in (it[2] if it[0] == "agg" else []) if f[0] == "agg" and f[1][:2] == ("adt", FIVE)]
+            if len(calls) != 1 or len(hands) != 1:
+                ok_rank = False
+                continue
+            cand = calls[0][2][0]
+            ok_rank = ok_rank and cand is hands[0]
         got = [cval(evaluate(pdb, x, base_env)) for x in arr_of(cand)]
         if k_ < len(table):
             ok_rows = ok_rows and got == [100 + r for r in table[k_]]
     ob("iterates-table", short(path), ok_rows, "the reduction does not visit one candidate per row of %s, built from the slots that row names" % perm_table_name(path).split("cards::")[-1], where)
     ob("candidate-from-row", short(path), ok_rows, "a ranked candidate is not made of the receiver's slots named by its table row", where)
-    ob("ranks-one-candidate", short(path), ok_rank, "an item does not pair a candidate with the ranking of that same candidate", where)
+    if not bare:
+        ob("ranks-one-candidate", short(path), ok_rank, "an item does not pair a candidate with the ranking of that same candidate", where)
     ob("no-early-exit", short(path), True)
     # the step closure on a symbolic accumulator and item
     cnt = [0]
@@ -1253,16 +1260,28 @@ def bestof_reduction(ctx, path, n, rule, need, ob, key, sty, k5v):
     best_a = acc_s[2][ix_v]
     old_h = [x[1] for x in arr_of(acc_s[2][ix_h])]
     # which leaf of the item is the candidate value / hand
-    iv = next((f for f in (item_s[2] if item_s[0] == "agg" else [item_s]) if ty_of(f) == "u16"), None)
-    ih = next((f for f in (item_s[2] if item_s[0] == "agg" else []) if f[0] == "agg" and f[1][:2] == ("adt", FIVE)), None)
-    if iv is None or ih is None:
-        ob("loop-shape", short(path), False, "the reduction's items are not (value, hand) pairs", where)
-        return None
+    if bare:
+        iv = None
+        ih = item_s
+        # the step itself must rank exactly the item it is given
+        rcalls = {id(x): x for x in walk(nxt) if x[0] == "call" and x[1] == "fn:" + k5v}
+        ok_rank = len(rcalls) == 1 and all(x[2][0] is item_s for x in rcalls.values())
+        ob("ranks-one-candidate", short(path), ok_rank, "the step does not rank exactly the candidate it is given", where)
+    else:
+        iv = next((f for f in (item_s[2] if item_s[0] == "agg" else [item_s]) if ty_of(f) == "u16"), None)
+        ih = next((f for f in (item_s[2] if item_s[0] == "agg" else []) if f[0] == "agg" and f[1][:2] == ("adt", FIVE)), None)
+        if iv is None or ih is None:
+            ob("loop-shape", short(path), False, "the reduction's items are not (value, hand) pairs", where)
+            return None
     new_h = [x[1] for x in arr_of(ih)]
     badv = badw = badz = None
     for bv_ in (0, 5, 9):
         for xv in (0, 3, 5, 7, 9, 12):
-            env = {best_a[1]: bv_, iv[1]: xv}
+            env = {best_a[1]: bv_}
+            if iv is not None:
+                env[iv[1]] = xv
+            else:
+                env["$fn:" + k5v] = (lambda a, xv=xv: C(xv, "u16"))
             env.update({nm: 200 + j for j, nm in enumerate(old_h)})
             env.update({nm: 300 + j for j, nm in enumerate(new_h)})
             gotv = cval(evaluate(pdb, nxt[2][ix_v], env))
